@@ -9,18 +9,22 @@ THEOREMS = {
     "Dawgs.Props.C17": [P + t for t in [
         "pipe_fifo", "pipe_complete", "pipe_writer_never_waits_on_reader",
         "bf_pipe_refines", "bf_counter_inv", "bf_no_early_exit", "bf_exactly_once", "bf_measure", "bf_terminates",
-        "bf_live_ctx_error_recorded", "bf_error_cancels", "bf_return_joins_workers",
+        "bf_live_ctx_error_recorded", "bf_error_cancels", "bf_return_joins_workers", "bf_return_no_goroutine_left",
         "limit_skip_window", "range_partition_exact", "seq_helper_eq_spec", "traversePaths_eq_spec", "terminals_eq_spec",
-        "acyclicNodes_eq_spec", "intermediaryPaths_eq_spec", "c17_partial", "c17_full_of_seq_paths",
+        "acyclicNodes_eq_spec", "intermediaryPaths_eq_spec", "traversePaths_order_eq_spec", "paths_fit_finite", "c17_seq_paths",
+        "c17_partial", "c17_full",
         # theorems about the protocol BEFORE the repair of finding F14 (cfg.fixed = false)
         "bf_terminates_partial_old", "bf_terminates_refuted_old", "c17_full_old_refuted"]],
+    "Dawgs.Props.C17Par": [P + t for t in [
+        "pnq_exactly_once", "pnq_complete", "pnq_measure", "pnq_progress_or_O2", "pnq_terminates_if_a_worker_survives", "pnq_O2_witness",
+        "counter_passes_exactly", "filteredSkipLimit_eq_spec",
+        "pattern_driver_eq_spec", "pattern_optional_step_duplicates", "pattern_mixed_direction_drops"]],
     "Dawgs.Tie.C17Order": [TIE + t for t in [
         "skeleton_breadthFirst", "skeleton_bufferedPipe", "skeleton_submit_receive",
         "order_inc_before_submit", "order_dec_after_loop", "order_completion_after_dec",
         "order_defers_and_capacity", "order_coordinator", "order_error_path", "order_pipe"]],
 }
-STATED_NOT_PROVED = ["Dawgs.C17.Props.C17_seq_paths_full (the DFS candidate order of TraversePaths = the recursively defined list of maximal acyclic paths): "
-                     "exercised by the c17seq tie only; the filter-then-window equation itself is proved for every helper (seq_helper_eq_spec)"]
+STATED_NOT_PROVED = []
 
 
 def regen(ctx):
@@ -38,6 +42,14 @@ def regen(ctx):
 
 def nontrivial(ops, impl):
     body = [o for o in ops if not o.startswith("#")]
+    if any(o.startswith("fsl ") for o in body):
+        q = next(o for o in body if o.startswith("fsl ")).split()
+        return (int(q[1]) > 0 or int(q[2]) > 0) and len(q[4]) >= 3
+    if any(o.startswith("pnq ") for o in body):
+        q = next(o for o in body if o.startswith("pnq ")).split()
+        return int(q[1]) >= 20000 and (int(q[2]) >= 2 or q[3] != "-")
+    if any(o.startswith("pattern ") for o in body):
+        return sum(o.startswith("edge") for o in body) >= 2 and any(";" in o or ":0:" in o for o in body if o.startswith("pattern "))
     if any(o.startswith("run ") for o in body):
         # a traversal over >= 3 segments with >= 2 workers, or any run with an injected fault
         tree = next((o for o in body if o.startswith("tree ")), "tree ()")
@@ -63,6 +75,8 @@ def finding_key(suite, ops, line, msg):
         fault = run[2] if run else "?"
         return "C17:BreadthFirst:%s-%s" % (fault, cls)
     op = ops[line].split()[0] if line < len(ops) and ops[line].split() else "?"
+    if suite["name"] in ("c17fsl", "c17pnq", "c17pat"):
+        return "C17:%s:%s" % ({"c17fsl": "traversal.FilteredSkipLimit", "c17pnq": "ops.ParallelNodeQuery", "c17pat": "traversal.pattern.Driver"}[suite["name"]], cls)
     if suite["name"] == "c17seq":
         names = {"paths": "TraversePaths", "terminals": "AcyclicTraverseTerminals", "nodes": "AcyclicTraverseNodes",
                  "intermediary": "TraverseIntermediaryPaths", "window": "LimitSkipTracker", "pfloors": "parallelNodeQuery"}
@@ -129,14 +143,22 @@ def extra_coverage(ctx, stats):
     cov = {
         "stated_not_proved": STATED_NOT_PROVED,
         "partial_runtime_aspects": [
-            "goroutine cleanup: observed (runtime.NumGoroutine settles back after every BreadthFirst run; pipe goroutine exit observed as closed reader channel), not proved",
+            "goroutine cleanup: in the LTS every worker has returned and the pipe goroutine has returned or is enabled to (bf_return_no_goroutine_left); that the Go "
+            "runtime really runs that last step is observed: runtime.NumGoroutine must settle back within 10 s after every BreadthFirst run and after every closed/cancelled "
+            "pipe, otherwise the monitors reject with class goroutine-leak",
             "wall-clock promptness: only a hang detector (>= 20 s, or 4 s of complete driver inactivity with nothing in flight)",
             "unsynchronised PathSegment.size roll-up: outside the LTS and outside the statement; counted by the -race pass of the thorough tier as an observation",
         ],
         "hooks_present": os.path.exists(os.path.join(REPO, "util", "channels", "verif_on.go")),
         "hang_detections": stats.get("branch.bf.hang_detected", 0),
-        "unmodelled": ["ops.Operation reader/writer pool, ParallelNodeQuery workers (observation O2: a failing worker does not cancel the range producer)",
-                       "pattern.Driver depth/min/max logic, LightweightDriver, FilteredSkipLimit (atomics.Counter)",
+        "observations_outside_the_statement": {
+            "O2 ops.parallelNodeQuery: when every worker has failed while id ranges remain, the range producer blocks on Submit until the caller's context ends "
+            "(Lean witness pnq_O2_witness; corpus/C17/c17pnq_o2.ops; hangs seen this run)": stats.get("branch.pnq.hang_detected", 0),
+            "O3 pattern.Driver: an optional step (min = 0) after the first expansion delivers each of its matches twice (pattern_optional_step_duplicates; corpus/C17/c17pat_observations.ops)": "reproduced on the real code",
+            "O4 pattern.Driver: the fetch for the next expansion reuses the current expansion's fetch direction, a direction change loses the first hop (pattern_mixed_direction_drops)": "reproduced on the real code",
+        },
+        "unmodelled": ["ops.Operation[T] reader/writer job pool (jobs are arbitrary caller functions), ParallelNodeQueryBuilder.Stream merge channel",
+                       "LightweightDriver (graph cache), UniquePathSegmentFilter / AcyclicNodeFilter wrappers",
                        "user filters that read or advance the TraversalContext's LimitSkipTracker themselves (modelled as pure functions of the segment/node); plan.BranchQuery, DepthExceptionHandler"],
     }
     if ctx.tier == "thorough":
@@ -194,10 +216,11 @@ SPEC = {
     "id": "C17",
     "title": "parallel traversal delivers every result exactly once and always terminates",
     "level": "proof",
-    "lean_modules": ["Dawgs.Props.C17", "Dawgs.Tie.C17Order"],
+    "lean_modules": ["Dawgs.Props.C17", "Dawgs.Props.C17Par", "Dawgs.Tie.C17Order"],
     "theorems_by_module": THEOREMS,
     "gate_modules": ["Dawgs.Model.C17", "Dawgs.Model.C17Seq", "Dawgs.Spec.C17", "Dawgs.Proofs.C17Pipe", "Dawgs.Proofs.C17BF",
-                     "Dawgs.Proofs.C17Seq", "Dawgs.Props.C17", "Dawgs.Tie.C17Order", "Dawgs.Generated.C17_order"],
+                     "Dawgs.Proofs.C17Seq", "Dawgs.Props.C17", "Dawgs.Tie.C17Order", "Dawgs.Generated.C17_order",
+                     "Dawgs.Model.C17Par", "Dawgs.Proofs.C17Par", "Dawgs.Props.C17Par"],
     "regen": regen,
     "suites": [
         {"name": "c17pipe", "model_suite": "c17pipe", "monitor_suite": "c17pipemon", "keep_prefix": 2, "shrink_budget": 60},
@@ -205,6 +228,9 @@ SPEC = {
         {"name": "c17bf", "model_suite": "c17bf", "keep_prefix": 2, "shrink_budget": 8},
         {"name": "c17tbf", "monitor_suite": "c17bfmon", "keep_prefix": 2, "shrink_budget": 8},
         {"name": "c17seq", "model_suite": "c17seq", "monitor_suite": "c17seqmon", "keep_prefix": 2, "shrink_budget": 120},
+        {"name": "c17fsl", "model_suite": "c17fsl", "monitor_suite": "c17fslmon", "keep_prefix": 1, "shrink_budget": 20},
+        {"name": "c17pnq", "model_suite": "c17pnq", "monitor_suite": "c17pnqmon", "keep_prefix": 1, "shrink_budget": 8},
+        {"name": "c17pat", "model_suite": "c17pat", "monitor_suite": "c17patmon", "keep_prefix": 2, "shrink_budget": 80},
     ],
     "nontrivial": nontrivial,
     "finding_key": finding_key,
@@ -214,14 +240,19 @@ SPEC = {
             "every fault point of {driver error, context cancel, memory limit, context-class driver error while live, context-class driver error after cancel}, + random trees (1-200 nodes, thorough up to 4000; chain/star/bushy/random shapes) x "
             "workers 1..8 x fault at a random driver call, literal and Descend-built segments; c17seq: stars, diamonds, cycles with chords, self loops/parallel edges, random DAGs and digraphs (<= 8 nodes) x the 4 helpers x 2 directions x "
             "skip in {0,1,2} x limit in {0,1,2,50,-1} x node filter {nil, accept-all, reject early / late / all / random nodes} x descent filter {nil, reject set, depth bound} x "
-            "path filter; model-compared and judged against the plan-defined result (filters first, then the window). "
+            "path filter; model-compared and judged against the plan-defined result (filters first, then the window). c17fsl: FilteredSkipLimit over random answer "
+            "sequences x skip x limit, sequential (exact) and concurrent (count); c17pnq: real ParallelNodeQuery over 1-12 id ranges x 1-5 workers x failing ranges (fewer than "
+            "workers, plus the O2 corpus case); c17pat: real BreadthFirst with pattern.Driver over the structured graphs x 1-3 expansions x min/max depth x direction, matches "
+            "compared as a multiset with the transcription and judged against the tag-free recursive semantics. "
             "A case is non-trivial when: pipe script with >= 2 submissions and a read or a cancel; any concurrent burst; a traversal of >= 3 segments with >= 2 workers "
-            "or any injected fault; a helper query on a graph with >= 2 edges that has a skip/limit window or a rejecting filter. distinct = distinct op-line sequences (sha1)",
+            "or any injected fault; a helper query on a graph with >= 2 edges that has a skip/limit window or a rejecting filter; an fsl case with skip or limit and >= 3 calls; a pnq case "
+            "with >= 2 ranges and (>= 2 workers or a failing range); a pattern with >= 2 expansions or an optional step on >= 2 edges. distinct = distinct op-line sequences (sha1)",
     "expected_branches": ["branch.pipe.submit_while_buffered", "branch.pipe.close_with_buffered", "branch.pipe.cancel_with_buffered",
                           "branch.pipe.flush_exit", "branch.pipe.read_empty", "branch.pipe.submit_refused", "branch.pipe.burst",
                           "branch.bf.fault_hit_err", "branch.bf.fault_hit_cancel", "branch.bf.fault_hit_mem", "branch.bf.workers_8",
                           "branch.bf.fault_hit_swallow", "branch.bf.fault_hit_cswallow", "branch.bf.ctx_class_error_reported",
-                          "branch.bf.memlimit", "branch.seq.node_filter_rejecting_with_window", "branch.seq.descent_filter", "branch.seq.path_filter"],
+                          "branch.bf.memlimit", "branch.seq.node_filter_rejecting_with_window", "branch.seq.descent_filter", "branch.seq.path_filter",
+                          "branch.fsl.concurrent", "branch.fsl.skip_and_limit", "branch.pnq.errors_returned", "branch.pat.optional_step", "branch.pat.nonempty"],
     "trusted_base": ["Go channel / select / context / sync/atomic / WaitGroup semantics (modelled as atomic rendezvous and atomic counter ops)",
                      "gammazero/deque (modelled as a list)",
                      "the go/ast order-fact extractor tools/extract/c17order (syntactic; cross-checked by the behavioural tie)",
@@ -248,8 +279,10 @@ MANIFEST = {
             "theorem about the old definition, and the order-fact tie rejects the old source shape). "
             "Sequential helpers (TraversePaths, AcyclicTraverseTerminals, AcyclicTraverseNodes, TraverseIntermediaryPaths): for every graph, node/descent/path filter, skip "
             "and limit the stack loop returns exactly the skip/limit window of the FILTERED DFS candidate sequence (a rejected node never consumes budget); "
-            "LimitSkipTracker window and the parallelNodeQuery range partition are proved for all inputs.",
+            "LimitSkipTracker window and the parallelNodeQuery range partition are proved for all inputs. parallelNodeQuery (LTS, all schedules, worker counts and failure "
+            "patterns): every id range queried exactly once, every failure merged once, termination whenever a worker survives; FilteredSkipLimit = the skip/limit window "
+            "(counter results independent of the interleaving); pattern.Driver work-list expansion = tag-free recursive pattern semantics.",
     "note": "Partial: goroutine cleanup and promptness are observed by the harness (NumGoroutine settles, hang detector), not proved; the PathSegment.size roll-up "
-            "race is outside the LTS (counted under -race in the thorough tier); that the DFS candidate order of TraversePaths equals the recursive path definition is stated but only tested by the tie. Trusted: Lean "
+            "race is outside the LTS (counted under -race in the thorough tier). Trusted: Lean "
             "kernel, Go channel/select/atomic semantics, the syntactic extractor, the harness.",
 }
